@@ -376,7 +376,9 @@ def check(tier):
                 "header_fields": "full ranges; timestamps at representatives in the entity harness and over every base in [0, 9999-12-31) x delta in int32 in the integer/real lemma read_record_timestamp; max timestamp >= every record",
                 "variants": "whole-second timestamps (all clauses must hold) and arbitrary millisecond timestamps", "damage": "%d concrete valid batches (4 captured broker batches + 1 reference-encoded) x (one overwritten byte with symbolic position from the CRC field to the end and symbolic value | symbolic magic != 2 | every truncation point)" % len(batches),
                 "crc": "uninterpreted fold + per-byte step injectivity (A6); counterexamples are replayed with the real crc32c"},
-        outside=["more than 2 records (0, 1 and 2 are covered)", "compressed record sets / control batches (attributes are carried opaquely)", "corruption of more than one byte", "multi-bit CRC collisions beyond single-byte changes (properties of the CRC-32C polynomial, trusted)"],
+        outside=["more than 2 records (0, 1 and 2 are covered)", "compressed record sets / control batches (attributes are carried opaquely)", "corruption of more than one byte", "multi-bit CRC collisions beyond single-byte changes (properties of the CRC-32C polynomial, trusted)",
+                 "batches whose max_timestamp is below a record's timestamp, and negative timestamps: assumed away in the faithful-read harness - the property does not say whether such a header is well-formed, and "
+                 "kio's reader has a validation for it (which compares the record's timestamp in SECONDS with max_timestamp in MILLISECONDS, so it only fires when max_timestamp[ms] < record timestamp[s])"],
         rule="one state = one completed symbolic path of read_batch (and write_batch) on one reference-encoded or captured batch",
         extra={"runs": rows, "captured_fixtures": len(batches) - 1})
     return runner.finish("C18", tier, t0, level="model_checking", coverage=cov, assumptions=["A1", "A5q", "A6", "A8"], cex=total.cex, inconclusive=inconclusive, samples=rows[:4])
